@@ -1,6 +1,7 @@
 from abc import ABC, abstractmethod
 from collections import defaultdict
 from collections.abc import Iterable, Mapping, Sequence
+from threading import RLock
 from typing import Any, Callable, Optional, TypeVar
 
 from ..compat import CompatBaseExceptionGroup
@@ -42,7 +43,10 @@ class SearchingRetort(BaseRetort, Provider, ABC):
         super().__init__(recipe=recipe)
 
     def _provide_from_recipe(self, request: Request[T]) -> T:
-        return self._create_mediator(request).provide(request)
+        # Results of an unfinished request (closures holding unbound recursion stubs)
+        # are visible to other requests via `_call_cache`, so requests must not be interleaved
+        with self._provide_lock:
+            return self._create_mediator(request).provide(request)
 
     def get_request_handlers(self) -> Sequence[tuple[type[Request], RequestChecker, RequestHandler]]:
         def retort_request_handler(mediator, request):
@@ -111,6 +115,7 @@ class SearchingRetort(BaseRetort, Provider, ABC):
             for request_cls in self._request_cls_to_router
         }
         self._call_cache: dict[Any, Any] = {}
+        self._provide_lock = RLock()
 
     def _create_request_cls_to_router(self, full_recipe: Sequence[Provider]) -> Mapping[type[Request], RequestRouter]:
         request_cls_to_checkers_and_handlers: defaultdict[type[Request], list[CheckerAndHandler]] = defaultdict(list)
